@@ -601,6 +601,50 @@ def mc_violation(pid, out, cfg, r):
                            "design-level model %s violates %s" % (cfg, r.violated)))
 
 
+# ------------------------------------------------------------------ requests beyond 32 bits of length
+
+def gen_huge(seed, kind, api, cap, rr, dec=False, gib=4):
+    """one request of gib GiB + a little (a length that does not fit 32 bits) on a CTR or parallel
+    object.  rr: reduced rounds (speed; the length handling does not depend on the rounds)."""
+    sc = Sc(seed + 4096)
+    bs = BS[kind]
+    sc.reset("huge-%s-%s-cap%d%s" % (api, kind, cap, "-dec" if dec else ""))
+    if api == "par":
+        sc.par_init(kind, 0, cap=cap)
+        sc.par_set_key(kind, 0, sc.rb(16 if kind == "mantis" else 2 * bs), rounds=6, mode=0 if dec else 1)
+        rem = sc.rng.choice((8, 9, 11, 13)) * bs          # more than one group, and a ragged remainder
+        sc.par_huge(kind, 0, gib, rem, sc.rb_nz(bs), enc=not dec, tweak=sc.rb_nz(8) if kind == "mantis" else None, rr=rr)
+        sc.par_crypt(kind, 0, sc.rb(3 * bs), enc=True, tweak=sc.rb(24) if kind == "mantis" else None)
+        sc.par_cleanup(kind, 0)
+    else:
+        sc.ctr_init(kind, 0, cap=cap)
+        sc.ctr_set_key(kind, 0, sc.rb(16 if kind == "mantis" else 2 * bs), rounds=6)
+        # the counter carries through its low bytes during the request
+        sc.ctr_set_counter(kind, 0, sc.rb(bs - 4) + b"\xff\xff\xff\xf0")
+        sc.ctr_encrypt(kind, 0, sc.rb(3), rr=rr)         # the stream stands in the middle of a block
+        nb = (gib << 30) // bs
+        rem = 9 * bs + 5
+        sc.ctr_huge(kind, 0, gib, rem, [0, 1, 7, 8, nb // 2 + 3, nb - 1, nb, nb + 1, nb + 8], tail=7, rr=rr)
+        sc.ctr_encrypt(kind, 0, sc.rb(bs + 2), rr=rr)    # the position after the request
+        sc.ctr_cleanup(kind, 0)
+    return sc
+
+
+def huge_requests(work, b, pid, seed, out, jobs):
+    """jobs: list of gen_huge argument tuples; the driver processes run side by side (each touches
+    about gib GiB of output), every trace is validated by TLC"""
+    from concurrent.futures import ThreadPoolExecutor
+    scs = [gen_huge(seed, *j) for j in jobs]
+    with ThreadPoolExecutor(max_workers=3) as ex:
+        res = list(ex.map(lambda sc: run_drv(b, sc.text(), timeout=1500), scs))
+    lines = []
+    for j, sc, ln in zip(jobs, scs, res):
+        lines += conform_lines(work, pid, seed, ln, sc.text(), out, tag="-huge-%s-%s-%d" % (j[1], j[0], j[2]))
+    out.notes.append("requests of 4 GiB + n bytes (length beyond 32 bits): %s" %
+                     ", ".join("%s/%s cap %d rr=%s%s" % (j[1], j[0], j[2], j[3], " dec" if len(j) > 4 and j[4] else "") for j in jobs))
+    return lines
+
+
 def backend_sweep(work, b, pid, seed, gen, out, kinds_caps=None):
     """Reference run (widest back end) validated by TLC; runs under each lower
     cap compared by identity, differing executions validated by TLC."""
@@ -654,6 +698,11 @@ def check_C05(work, tier, seed):
         for cap in (2, 1, 0):
             axis_compare(work, "C05", seed, out, lines, "%s cap %d" % (defs[0], cap), b2,
                          gen_ctr(seed, tier, lambda k, cap=cap: cap, c06=False).text(), "-%s%d" % (bname, cap))
+    # total lengths that do not fit 32 bits
+    jobs = [(k, "ctr", CAPS[k][0], 1) for k in ("s128", "s64", "mantis")]
+    if tier == "thorough":
+        jobs = [(k, "ctr", c, None if c == CAPS[k][0] else 1) for k in ("s128", "s64", "mantis") for c in CAPS[k]]
+    lines += huge_requests(work, b, "C05", seed, out, jobs)
     note_distinct(out, lines, ("o", "n", "ctr", "cap"))
     out.samples = sample_events([x for x in lines if '"ctr_' in x])
     return out, dict(
@@ -973,6 +1022,9 @@ def check_C03(work, tier, seed):
                      gen_c03(seed, tier, lambda k, cap=cap: cap).text(), "-w32-%d" % cap)
     # spec -> impl: every transition of the mode machine's state graph on the real objects
     lines += conform(work, b, "C03", seed, graph_mode_scenarios(work, seed, lambda k: 2, out).text(), out, tag="-graph")
+    # the inverse direction on requests whose length does not fit 32 bits
+    jobs = [("mantis", "par", 1, 1, True), ("s128", "par", 2, 1, True), ("s64", "par", 1, 1, True)]
+    lines += huge_requests(work, b, "C03", seed, out, jobs)
     note_distinct(out, lines, ("o", "n", "tweak", "mode"))
     out.samples = sample_events([x for x in lines if "swap" in x or "par_" in x])
     return out, dict(
@@ -1086,6 +1138,12 @@ def check_C07(work, tier, seed):
     # spec -> impl: every transition of the parallel object's state graph (incl. re-keying after whole
     # groups were processed) on the real objects
     lines += conform(work, b, "C07", seed, graph_par_scenarios(work, seed, lambda k: 2, out).text(), out, tag="-graph")
+    # block counts that do not fit 32 bits (in bytes)
+    jobs = [(k, "par", CAPS[k][0], 1) for k in ("s128", "s64", "mantis")]
+    if tier == "thorough":
+        jobs = [(k, "par", c, None if c == CAPS[k][0] else 1, d) for k in ("s128", "s64", "mantis") for c in CAPS[k]
+                for d in (False, True)]
+    lines += huge_requests(work, b, "C07", seed, out, jobs)
     note_distinct(out, lines, ("o", "n", "tweak", "cap"))
     out.samples = sample_events([x for x in lines if '"par_' in x])
     return out, dict(
